@@ -4,7 +4,7 @@
    tokenize with fuel len+3 never runs out, yields at most len+1 tokens and is fused.  Partial:
    "no engine loop exhausts its fuel" (E2) and the analyze bound are not yet proved; a hang of the
    code shows only as a watchdog timeout in the correspondence check. *)
-From RX Require Import Base.Prelude Model.Engine Model.Matcher Model.Api Proofs.ScanFacts.
+From RX Require Import Base.Prelude Model.Engine Model.Matcher Model.Api Proofs.ScanFacts Model.Op Proofs.EngineFacts Proofs.EngineCorollaries.
 
 Theorem C06_token_bound_partial :
   forall matchf input, good_step matchf input -> forall s,
@@ -17,5 +17,16 @@ Theorem C06_fused :
     tok_next_gen matchf input {| t_prev := None; t_ms := s |} = Ok (None, {| t_prev := None; t_ms := s |}).
 Proof. exact tok_fused. Qed.
 
+(* E2 on the fragment (see C01_fragment_is_match_partial for the fragment): it never happens that
+   a local loop of the engine exhausts its fuel - YW has no constructor for LPanic / LOut *)
+Theorem C06_engine_fragment_no_fuel_exhaustion_partial :
+  forall prog input i s,
+    simple input (p_case prog) (p_multi prog) (p_hasbackrefs prog) (p_maxparens prog) (p_op prog) ->
+    (p_hasbol prog = false /\ p_minlen prog = 0%N /\ p_prefix prog = None /\ p_icc prog = None /\ p_pre prog = []) ->
+    i <= length input -> length (sb s) = length (eb s) ->
+    match matches prog input i s with MTrue _ | MFalse _ => True | MOut | MPanic _ => False end.
+Proof. intros prog input i s H1 H2. exact (fragment_no_panic_no_out prog input H1 H2 i s). Qed.
+
 Print Assumptions C06_token_bound_partial.
 Print Assumptions C06_fused.
+Print Assumptions C06_engine_fragment_no_fuel_exhaustion_partial.
